@@ -137,6 +137,20 @@ class SArr:
         shape=shape[0] if len(shape)==1 and isinstance(shape[0],(tuple,list)) else shape
         v=SArr(tuple(_ai(s) for s in shape), self.dtype, self.data); return v
     def tolist(self): return [self.data[o] for o in self._offsets()]
+    def tobytes(self):
+        if self.dtype.bits == 8 and not self.dtype.isfloat: return bytes(self.tolist())
+        out = b""
+        for v in self.tolist(): out += int(v).to_bytes(self.dtype.bits // 8, "little")
+        return out
+    def copy(self): return SArr(self.shape, self.dtype, [self.data[o] for o in self._offsets()])
+    def flatten(self): return SArr((len(self.tolist()),), self.dtype, self.tolist())
+    @property
+    def size(self):
+        n = 1
+        for d in self.shape: n *= d
+        return n
+    @property
+    def ndim(self): return len(self.shape)
 
 class Kernel:
     def __init__(self, fn): self.py_func=fn; self.__name__=fn.__name__; self.impl=fn; self.record=True
@@ -174,6 +188,27 @@ _FILES={}
 class _Npz(dict):
     def __enter__(self): return self
     def __exit__(self,*a): return False
+def to_f64(v):
+    """float64 of a (possibly symbolic) non-negative int, rounding to nearest-even above 2^53 like IEEE does
+    (CrossHair's floats are reals, so the rounding is modelled explicitly)"""
+    if isinstance(v, NPScalar):
+        v = v.v
+    if isinstance(v, float) or not isinstance(v, int):
+        return float(v)
+    if -(1 << 53) <= v <= (1 << 53):
+        return float(v)
+    if v < 0:
+        return -to_f64(-v)
+    for sft in range(1, 12):
+        if v < (1 << (53 + sft)):
+            q, r = v >> sft, v & ((1 << sft) - 1)
+            half = 1 << (sft - 1)
+            if r > half or (r == half and (q & 1) == 1):
+                q += 1
+            return float(q << sft)
+    return float(v)
+
+
 def _array(data, dtype=None):
     if isinstance(data, SArr): return data
     if isinstance(data, NPScalar): 
@@ -182,7 +217,7 @@ def _array(data, dtype=None):
     if dtype is None:
         # numpy promotion for the cases in sketchnu: all unsigned ints -> widest (uint64)
         dtype=uint64
-    if dtype.isfloat: vals=[float(v) for v in vals]
+    if dtype.isfloat: vals=[to_f64(v) for v in vals]
     return SArr((len(vals),), dtype, vals)
 def _copy(a):
     if isinstance(a, SArr):
